@@ -589,6 +589,12 @@ func RunCheck(c *Check) int {
 			c.ShrinkBudget = 120 * time.Second
 		}
 	}
+	if v := os.Getenv("VERIF_SHRINK_S"); v != "" {
+		// triage sweeps over many seeded changes only need the verdict
+		if n, err := strconv.Atoi(v); err == nil && n > 0 {
+			c.ShrinkBudget = time.Duration(n) * time.Second
+		}
+	}
 	total := &phaseResult{fps: map[uint64]bool{}}
 	total.sum.Faults = map[string]int{}
 	total.sum.Probes = map[string]int{}
